@@ -2437,6 +2437,13 @@ static int next_token(struct scanner_s *scanner) {
             if (result == CIF_EOF) {
                 ttype = END;
                 result = CIF_OK;
+                if (POSN_COLUMN(scanner) > CIF_LINE_LENGTH) {
+                    /* error: the last line is overlength, though it has no terminator */
+                    result = scanner->error_callback(CIF_OVERLENGTH_LINE, scanner->line, scanner->column,
+                            scanner->next_char - 1, 0, scanner->user_data);
+                    /* recover by accepting it as-is; do not report it again */
+                    scanner->column = 0;
+                }
             }
 
             /* break out of the scan loop: */
